@@ -324,7 +324,7 @@ class Typer(object):
         if head == 'SelectedAccessNode':
             return 'selected', 'inst_ref<Object>'
         if head == 'ParamAccessNode':
-            for n, t in G.HOME_PARAMS:
+            for n, t in G.home_params(self.home):
                 if n == b[1]:
                     return 'parameter', t
             return 'unresolved', None
